@@ -46,7 +46,17 @@ from sigtools import modifiers
 
 LEVEL = 'proof'
 KNOWN_KEY = 'C11:raw-compare'
-SPELL = ['T', 'U', 'W', 'X']
+NNAMES = 4
+# spellings 0..3 are names bound in every module; 4..7 are the string LITERALS 'T' ... 'X'
+# written as annotations.  A string object has the same number whether it occurs as the raw
+# annotation of a postponed function or as an annotation VALUE (eager `a: 'T'`, or postponed
+# `a: 'T'` after evaluation): SPELL_BASE + its index here -- in Python they are equal strings.
+SPELL = ['T', 'U', 'W', 'X', "'T'", "'U'", "'W'", "'X'"]
+
+
+def pick_spell(rng):
+    s = rng.randrange(NNAMES)
+    return s + NNAMES if rng.random() < 0.2 else s
 SPELL_BASE = 500
 NOBJ = 4
 MODES = ('e', 'p', 'x')
@@ -109,6 +119,9 @@ class World(object):
 
     def __init__(self, bindings, funcs):
         self.bindings = [{int(k): v for k, v in b.items()} for b in bindings]
+        for b in self.bindings:
+            for i in range(NNAMES):
+                b[NNAMES + i] = SPELL_BASE + i      # the literal 'T' denotes the string 'T' everywhere
         self.funcs = {f['fid']: f for f in funcs}
         self.uniq = 'c11w%d_%d' % (os.getpid(), next(_COUNTER))
         self.dir = tempfile.mkdtemp(prefix='verif-c11-')
@@ -138,6 +151,8 @@ class World(object):
         self.modnames.append(vals)
         self.obj = {i: getattr(self.vals, 'v%d' % i) for i in range(1, NOBJ + 1)}
         self.obj_id = {id(o): i for i, o in self.obj.items()}
+        for i in range(NNAMES):
+            self.obj[SPELL_BASE + i] = SPELL[i]
         for mode in MODES:
             self._build(mode)
 
@@ -146,6 +161,8 @@ class World(object):
         for spec in self.funcs.values():
             if not spec.get('sib'):
                 bymod.setdefault(spec['mod'], []).append(spec)
+        for m in range(NMOD):
+            bymod.setdefault(m, [])      # every module exists (and is in sys.modules) in every world
         names = {m: '%s_%s_m%d' % (self.uniq, mode, m) for m in range(NMOD)}
         alias = {m: 'cm%d' % m for m in range(NMOD)}
         for m in sorted(bymod):
@@ -153,7 +170,7 @@ class World(object):
             if mode_flag(mode, m):
                 src.append('from __future__ import annotations')
             src.append('from %s_vals import %s' % (self.uniq, ', '.join(
-                'v%d as %s' % (self.bindings[m][s], SPELL[s]) for s in range(len(SPELL)))))
+                'v%d as %s' % (self.bindings[m][s], SPELL[s]) for s in range(NNAMES))))
             for cm in sorted({sp['call']['cmod'] for sp in bymod[m] if sp.get('call')}):
                 src.append('import %s as %s' % (names[cm], alias[cm]))
             src.append('')
@@ -171,10 +188,15 @@ class World(object):
                 self.objs[mode][spec['fid']] = fn
                 self.register(fn, spec['fid'])
         self._build_siblings(mode, names)
+        # re-exported functions: __module__ names another real module (the `set_module` idiom);
+        # their globals, hence what their annotations denote, stay those of the defining module
+        for spec in self.funcs.values():
+            if spec.get('reexport') is not None:
+                self.objs[mode][spec['fid']].__module__ = names[spec['reexport']]
 
     def _namespace(self, m, name):
         ns = {'__name__': name}
-        for s in range(len(SPELL)):
+        for s in range(NNAMES):
             ns[SPELL[s]] = self.obj[self.bindings[m][s]]
         return ns
 
@@ -205,7 +227,7 @@ class World(object):
                     continue
                 m = sp['mod']
                 if m not in spaces:
-                    spaces[m] = self._namespace(m, '%s_%s_tplns%d' % (self.uniq, mode, m))
+                    spaces[m] = self._namespace(m, names[(m + 1) % NBASE])   # __name__ of another real module
                     exec(code, spaces[m])                                         # executed per namespace
                 fn = spaces[m][sp['defname']]
                 self.objs[mode][sp['fid']] = fn
@@ -287,12 +309,12 @@ def _annotate_spec(rng, ps, density):
         if de is not None:
             de = rng.choice([0, 1, 1, 2])
         pr = density * (0.5 if k in ('VP', 'VK') else 1.0)
-        out.append([nm, k, de, rng.randrange(len(SPELL)) if rng.random() < pr else None])
+        out.append([nm, k, de, pick_spell(rng) if rng.random() < pr else None])
     return out
 
 
 def gen_world(rng, nfam=14, nrand=10, ninner=10, nwrap=24, ntpl=10, nrehome=12):
-    bindings = [{s: rng.randint(1, NOBJ) for s in range(len(SPELL))} for _ in range(NMOD)]
+    bindings = [{s: rng.randint(1, NOBJ) for s in range(NNAMES)} for _ in range(NMOD)]
     # two spellings of one object in module 0; one spelling, different objects in modules 0 / 1
     bindings[0][2] = bindings[0][0]
     if bindings[1][0] == bindings[0][0]:
@@ -303,8 +325,10 @@ def gen_world(rng, nfam=14, nrand=10, ninner=10, nwrap=24, ntpl=10, nrehome=12):
 
     def add(m, ps, group, density=0.6, call=None):
         spec = {'fid': next(fid), 'mod': m, 'params': _annotate_spec(rng, ps, density),
-                'ret': rng.randrange(len(SPELL)) if rng.random() < 0.6 else None,
+                'ret': pick_spell(rng) if rng.random() < 0.6 else None,
                 'group': group, 'call': call}
+        if rng.random() < 0.15:
+            spec['reexport'] = rng.choice([x for x in range(NMOD) if x != m])
         funcs.append(spec)
         return spec
 
@@ -323,7 +347,7 @@ def gen_world(rng, nfam=14, nrand=10, ninner=10, nwrap=24, ntpl=10, nrehome=12):
     # functions sharing one code object under different globals
     for tid in range(ntpl):
         base = _annotate_spec(rng, random_sig(rng, 'abcd', 4), 0.8)
-        r = rng.randrange(len(SPELL)) if rng.random() < 0.7 else None
+        r = pick_spell(rng) if rng.random() < 0.7 else None
         for m in rng.sample(range(NBASE), rng.choice([2, 3])):
             funcs.append({'fid': next(fid), 'mod': m, 'flagmod': TPL_MOD, 'params': [list(p) for p in base], 'ret': r,
                           'group': 'S', 'call': None, 'defname': 't%d' % tid, 'sib': {'kind': 'exec', 'tpl': tid}})
@@ -885,7 +909,7 @@ def vname(v):
     if v is None:
         return 'empty'
     if v >= SPELL_BASE:
-        return repr(SPELL[v - SPELL_BASE]) if v - SPELL_BASE < len(SPELL) else '<%d>' % v
+        return 'the string %r' % SPELL[v - SPELL_BASE] if v - SPELL_BASE < len(SPELL) else '<%d>' % v
     return 'v%d' % v
 
 
@@ -913,9 +937,11 @@ def raw_class_pair(world, case, mode, names=None):
     ins = inputs_of(world, case)
 
     def raw(i, p):
+        # the number of the raw annotation object, as in the model: the object itself for an
+        # eager / annotate-given annotation, the spelling string for a postponed one
         if p[4] or not mode_flag(mode, i['flagmod']):
-            return ('o', p[3])
-        return ('s', p[2])
+            return p[3]
+        return SPELL_BASE + p[2]
     for a, b_ in itertools.combinations(ins, 2):
         for p in a['params']:
             for q in b_['params']:
@@ -926,8 +952,8 @@ def raw_class_pair(world, case, mode, names=None):
                     continue
                 if (raw(a, p) == raw(b_, q)) != (p[3] == q[3]):
                     return 'f%d.%s: %s = %s  vs  f%d.%s: %s = %s' % (
-                        a['fid'], name_of(p[0]), raw(a, p)[1] if raw(a, p)[0] == 'o' else SPELL[p[2]], vname(p[3]),
-                        b_['fid'], name_of(q[0]), raw(b_, q)[1] if raw(b_, q)[0] == 'o' else SPELL[q[2]], vname(q[3]))
+                        a['fid'], name_of(p[0]), vname(raw(a, p)), vname(p[3]),
+                        b_['fid'], name_of(q[0]), vname(raw(b_, q)), vname(q[3]))
     return None
 
 
@@ -938,9 +964,11 @@ def show_case(world, case):
         if sp.get('sib'):
             sib = ', same code object as the other %s' % sp['defname'] if sp['sib']['kind'] == 'exec' else \
                 ', FunctionType(f%d.__code__, globals of module %d)' % (sp['sib']['of'], sp['mod'])
+        if sp.get('reexport') is not None:
+            sib += ', __module__ set to module %d' % sp['reexport']
         return 'f%d = ' % fid + fn_source(sp, {m: 'cm%d' % m for m in range(NMOD)}).split(':\n')[0] + \
             '  [globals %d: %s%s]' % (sp['mod'], ', '.join(
-                '%s=v%d' % (SPELL[s], o) for s, o in sorted(world.bindings[sp['mod']].items())), sib)
+                '%s=v%d' % (SPELL[s], o) for s, o in sorted(world.bindings[sp['mod']].items()) if s < NNAMES), sib)
     extra = {k: v for k, v in case.items() if k not in ('f', 'op', 'prime')}
     fids = list(case['f'])
     if case['op'] == 'auto':
